@@ -6,6 +6,9 @@
   The theorems hold for EVERY permutation `perm`; the check instantiates it with the translated permutations of C06.
 -/
 import GoldilocksVerif.Lemmas.SpongeL
+import GoldilocksVerif.Lemmas.BridgeSponge
+import GoldilocksVerif.Lemmas.BridgePerm
+import GoldilocksVerif.Lemmas.BridgePermAvx
 
 namespace GoldilocksVerif.C07
 open GoldilocksVerif.Model
@@ -76,6 +79,123 @@ theorem C07_avx512_is_sponge (perm perm2 : List Wd → List Wd)
     (in1 in2 : List Wd) (hl : in1.length = in2.length) :
     linearHash512 perm2 (in1 ++ in2) in1.length = spongeSpec perm in1 ++ spongeSpec perm in2 := by
   rw [C07_avx512 perm perm2 h hp in1 in2 hl, linearHash_eq_spec, linearHash_eq_spec]
+
+/-! ## The same statement about the TRANSLATED `linear_hash_seq` and `linear_hash`
+
+  `Gen.LinearHashGen.Pos_linear_hash_seq / Pos_linear_hash` are regenerated from poseidon_goldilocks.cpp on every run (the
+  `while (remaining)` loop as a fuel-bounded fold over its lifted body, `memcpy` / `memset` with run-time sizes as region
+  copies, the early `return` of the pass-through case as a branch).  The statements hold for every 64-bit `size`, every
+  input / output region and every fuel > size.  They are generic in the permutation in the same way as the statements above:
+  `perm` is any list function that describes what the translated permutation the loop calls does on its first twelve words
+  (hypothesis `hP`; C06 proves what these permutations compute).  Proofs: Lemmas/BridgeSponge.lean. -/
+
+/-- translated `linear_hash_seq`: returns, the four output words are the sponge of the first `size` input words (pass-through
+    below five elements), nothing beyond output[3] is written -/
+theorem C07_generated_linear_hash_seq (perm : List Wd → List Wd)
+    (hP : ∀ s, GoldilocksVerif.Region.toList (Gen.LinearHashGen.Pos_hash_full_result_seq_al_state_input s) 12 =
+      perm (GoldilocksVerif.Region.toList s 12))
+    (fuel : Nat) (output input : GoldilocksVerif.Region) (size : BitVec 64) (hf : size.toNat < fuel) :
+    ∃ out', Gen.LinearHashGen.Pos_linear_hash_seq fuel output input size = some out' ∧
+      GoldilocksVerif.Region.toList out' 4 = spongeSpec perm (GoldilocksVerif.Region.toList input size.toNat) ∧
+      ∀ k, 4 ≤ k → out' k = output k := by
+  rw [GoldilocksVerif.lh_seq_generic, ← linearHash_eq_spec]
+  exact GoldilocksVerif.lhGenG_spec _ perm hP fuel output input size hf
+
+/-- translated `linear_hash` (AVX2 permutation): the same statement -/
+theorem C07_generated_linear_hash_avx2 (perm : List Wd → List Wd)
+    (hP : ∀ s, GoldilocksVerif.Region.toList (Gen.LinearHashGen.Pos_hash_full_result_al_state_input s) 12 =
+      perm (GoldilocksVerif.Region.toList s 12))
+    (fuel : Nat) (output input : GoldilocksVerif.Region) (size : BitVec 64) (hf : size.toNat < fuel) :
+    ∃ out', Gen.LinearHashGen.Pos_linear_hash fuel output input size = some out' ∧
+      GoldilocksVerif.Region.toList out' 4 = spongeSpec perm (GoldilocksVerif.Region.toList input size.toNat) ∧
+      ∀ k, 4 ≤ k → out' k = output k := by
+  rw [GoldilocksVerif.lh_avx_generic, ← linearHash_eq_spec]
+  exact GoldilocksVerif.lhGenG_spec _ perm hP fuel output input size hf
+
+/-- the translated functions equal the hand model `Model.linearHash` (which is thereby no longer tied to the code by
+    testing only) -/
+theorem C07_generated_linear_hash_eq_model (perm : List Wd → List Wd) (P : GoldilocksVerif.Region → GoldilocksVerif.Region)
+    (hP : ∀ s, GoldilocksVerif.Region.toList (P s) 12 = perm (GoldilocksVerif.Region.toList s 12))
+    (fuel : Nat) (output input : GoldilocksVerif.Region) (size : BitVec 64) (hf : size.toNat < fuel) :
+    ∃ out', GoldilocksVerif.lhGenG P fuel output input size = some out' ∧
+      GoldilocksVerif.Region.toList out' 4 = linearHash perm (GoldilocksVerif.Region.toList input size.toNat) ∧
+      ∀ k, 4 ≤ k → out' k = output k := GoldilocksVerif.lhGenG_spec P perm hP fuel output input size hf
+
+/-- translated `linear_hash_seq`, WITHOUT the hypothesis on the permutation: the translated scalar permutation's first twelve
+    output words are a function of its first twelve input words (Lemmas/BridgePerm.lean), namely `permSeqList`; so for every
+    input region, every 64-bit size and every fuel > size the translated function returns the sponge built on the translated
+    permutation (whose field-level meaning is C06's) -/
+theorem C07_generated_linear_hash_seq_is_sponge (fuel : Nat) (output input : GoldilocksVerif.Region) (size : BitVec 64)
+    (hf : size.toNat < fuel) :
+    ∃ out', Gen.LinearHashGen.Pos_linear_hash_seq fuel output input size = some out' ∧
+      GoldilocksVerif.Region.toList out' 4 =
+        spongeSpec GoldilocksVerif.permSeqList (GoldilocksVerif.Region.toList input size.toNat) ∧
+      ∀ k, 4 ≤ k → out' k = output k :=
+  C07_generated_linear_hash_seq GoldilocksVerif.permSeqList GoldilocksVerif.perm_seq_hP fuel output input size hf
+
+/-- translated `linear_hash_avx512` (two inputs of `size` words back to back, eight output words): if the translated two-state
+    permutation acts on its first 24 words as `perm2` (`hP2`) and `perm2` acts on the interleaved layout as `perm` on each
+    state (`h`, the conclusion of C06_avx512_eq_spec), then for every fuel > size both digests are the sponges of their input
+    and nothing beyond output[7] is written -/
+theorem C07_generated_linear_hash_avx512 (perm perm2 : List Wd → List Wd)
+    (h : ∀ a b, a.length = 12 → b.length = 12 → perm2 (interleave a b) = interleave (perm a) (perm b))
+    (hp : ∀ s, s.length = 12 → (perm s).length = 12)
+    (hP2 : ∀ s, GoldilocksVerif.Region.toList (Gen.LinearHashGen.Pos_hash_full_result_avx512_al_state_input s) 24 =
+      perm2 (GoldilocksVerif.Region.toList s 24))
+    (fuel : Nat) (output input : GoldilocksVerif.Region) (size : BitVec 64) (hf : size.toNat < fuel) :
+    ∃ out', Gen.LinearHashGen.Pos_linear_hash_avx512 fuel output input size = some out' ∧
+      GoldilocksVerif.Region.toList out' 8 =
+        spongeSpec perm (GoldilocksVerif.Region.toList input size.toNat) ++
+        spongeSpec perm (GoldilocksVerif.Region.toList (GoldilocksVerif.Region.shift input size.toNat) size.toNat) ∧
+      ∀ k, 8 ≤ k → out' k = output k := by
+  rw [GoldilocksVerif.lh512_generic]
+  obtain ⟨out', h1, h2, h3⟩ := GoldilocksVerif.lh512GenG_spec _ perm2 hP2 fuel output input size hf
+  refine ⟨out', h1, ?_, h3⟩
+  rw [h2, GoldilocksVerif.toList_two_inputs]
+  have hl : (GoldilocksVerif.Region.toList input size.toNat).length =
+      (GoldilocksVerif.Region.toList (GoldilocksVerif.Region.shift input size.toNat) size.toNat).length := by
+    rw [GoldilocksVerif.Region.length_toList, GoldilocksVerif.Region.length_toList]
+  have := C07_avx512_is_sponge perm perm2 h hp _ _ hl
+  rw [GoldilocksVerif.Region.length_toList] at this
+  exact this
+
+/-- translated `linear_hash` (AVX2), WITHOUT the hypothesis on the permutation: `perm := permAvxList`, the translated AVX2
+    permutation run on a 12-element list (its locality is proved in Lemmas/BridgePermAvx.lean) -/
+theorem C07_generated_linear_hash_avx2_is_sponge (fuel : Nat) (output input : GoldilocksVerif.Region) (size : BitVec 64)
+    (hf : size.toNat < fuel) :
+    ∃ out', Gen.LinearHashGen.Pos_linear_hash fuel output input size = some out' ∧
+      GoldilocksVerif.Region.toList out' 4 =
+        spongeSpec GoldilocksVerif.permAvxList (GoldilocksVerif.Region.toList input size.toNat) ∧
+      ∀ k, 4 ≤ k → out' k = output k :=
+  C07_generated_linear_hash_avx2 GoldilocksVerif.permAvxList GoldilocksVerif.perm_avx_hP fuel output input size hf
+
+/-- translated `linear_hash_avx512`, WITHOUT hypotheses: it equals the hand model `Model.linearHash512` instantiated with the
+    translated two-state permutation run on a 24-element list (`perm512List`; locality proved in Lemmas/BridgePermAvx.lean),
+    for every input region, every 64-bit size and every fuel > size; nothing beyond output[7] is written.  (That the two
+    digests are two sponges needs, in addition, C06's statement that the two-state permutation acts on the interleaved layout as
+    the one-state permutation on each state: `C07_generated_linear_hash_avx512` with `hP2 := perm512_hP`.) -/
+theorem C07_generated_linear_hash_avx512_eq_model (fuel : Nat) (output input : GoldilocksVerif.Region) (size : BitVec 64)
+    (hf : size.toNat < fuel) :
+    ∃ out', Gen.LinearHashGen.Pos_linear_hash_avx512 fuel output input size = some out' ∧
+      GoldilocksVerif.Region.toList out' 8 =
+        linearHash512 GoldilocksVerif.perm512List (GoldilocksVerif.Region.toList input (2 * size.toNat)) size.toNat ∧
+      ∀ k, 8 ≤ k → out' k = output k := by
+  rw [GoldilocksVerif.lh512_generic]
+  exact GoldilocksVerif.lh512GenG_spec _ GoldilocksVerif.perm512List GoldilocksVerif.perm512_hP fuel output input size hf
+
+/-- both digests of the translated `linear_hash_avx512` are sponges, the only remaining hypothesis being C06's interleaving
+    statement about the two-state permutation -/
+theorem C07_generated_linear_hash_avx512_is_sponge (perm : List Wd → List Wd)
+    (h : ∀ a b, a.length = 12 → b.length = 12 →
+      GoldilocksVerif.perm512List (interleave a b) = interleave (perm a) (perm b))
+    (hp : ∀ s, s.length = 12 → (perm s).length = 12)
+    (fuel : Nat) (output input : GoldilocksVerif.Region) (size : BitVec 64) (hf : size.toNat < fuel) :
+    ∃ out', Gen.LinearHashGen.Pos_linear_hash_avx512 fuel output input size = some out' ∧
+      GoldilocksVerif.Region.toList out' 8 =
+        spongeSpec perm (GoldilocksVerif.Region.toList input size.toNat) ++
+        spongeSpec perm (GoldilocksVerif.Region.toList (GoldilocksVerif.Region.shift input size.toNat) size.toNat) ∧
+      ∀ k, 8 ≤ k → out' k = output k :=
+  C07_generated_linear_hash_avx512 perm GoldilocksVerif.perm512List h hp GoldilocksVerif.perm512_hP fuel output input size hf
 
 /-- non-vacuity: a 13-element input exercises two full-rate blocks with padding -/
 example : (spongeSpec (fun s => s) (List.replicate 13 1#64)).length = 4 := by decide
